@@ -80,6 +80,8 @@ type H struct {
 	sfx  string // suffix for nondet names that must differ between two states
 	wild bool   // C20: no input-shape assumptions (non-ASCII strings, absent amounts)
 
+	LastErr error // error returned by the last callAdmin / callUser (nil if it panicked)
+
 	Role       [5]string // by slot; Role[slotPending] valid iff PendingSet
 	PendingSet bool
 
@@ -423,6 +425,7 @@ func (h *H) callAdmin(idx int, from string) (ok bool, panicked bool) {
 			_, err = h.S.RemoveRemoteTokenMessenger(ctx, &types.MsgRemoveRemoteTokenMessenger{From: from, DomainId: h.M.Domain})
 		}
 	})
+	h.LastErr = err
 	return verifrt.All(!panicked, err == nil), panicked
 }
 
@@ -547,5 +550,6 @@ func (h *H) callUser(idx int, c userCaps) (ok bool, panicked bool, m *userMsg) {
 			_, err = h.S.ReceiveMessage(ctx, &types.MsgReceiveMessage{From: m.From.Str, Message: m.Message, Attestation: m.Attestation})
 		}
 	})
+	h.LastErr = err
 	return verifrt.All(!panicked, err == nil), panicked, m
 }
